@@ -789,7 +789,7 @@ class AdvURI(AdvDataField):
                 # URI rejected by urlparse (e.g. unbalanced IPv6 brackets)
                 raise AdvDataError from err
         # Not enough data.
-        return None
+        raise AdvDataError
 
 
 class AdvAdvertisingInterval(AdvDataField):
